@@ -127,7 +127,11 @@ func replayFile(col *core.Collector, prop, path string) error {
 		return seq.ReplaySched(col, data, path)
 	case bytes.Contains(data, []byte(`"persist_case"`)):
 		return seq.ReplayPersist(col, data, path)
-	default:
+	case bytes.Contains(data, []byte(`"extend_case"`)):
+		return seq.ReplayExtend(col, data, path)
+	case bytes.Contains(data, []byte(`"engine": "seq"`)) || bytes.Contains(data, []byte(`"engine":"seq"`)):
 		return seq.ReplayFile(col, path)
+	default:
+		return conc.Replay(col, data, path, 30)
 	}
 }
